@@ -13,10 +13,10 @@ det = json.load(open("/verif/seeded/detection.json")) if os.path.exists("/verif/
 os.makedirs(OUT, exist_ok=True)
 for d, wave in [(d, w) for SRC, w in SRCS for d in sorted(glob.glob(f"{SRC}/C*/_mutant"))]:
     prop = d.split("/")[-2]
-    for diff in sorted(glob.glob(f"{d}/?.diff") + glob.glob(f"{d}/Bx.diff")):
+    for diff in sorted(glob.glob(f"{d}/?.diff") + glob.glob(f"{d}/?x.diff")):
         x0 = os.path.basename(diff)[:-5]
-        if prop == "C10" and x0 == "B" and not wave:
-            continue          # superseded by Bx (rebased onto the repaired tree)
+        if len(x0) == 1 and os.path.exists(f"{d}/{x0}x.diff"):
+            continue          # superseded by its rebase onto the repaired tree (a later fix: commit touched the same lines)
         x = wave + x0
         log = f"{CONF}/{prop}_{x}.log"
         if not os.path.exists(log):
@@ -34,7 +34,7 @@ for d, wave in [(d, w) for SRC, w in SRCS for d in sorted(glob.glob(f"{SRC}/C*/_
         shutil.copy(diff, f"{dst}/patch.diff")
         demo = f"{d}/{x0}_demo.py"
         shutil.copy(demo, f"{dst}/demo.py")
-        meta_src = f"{d}/{x0 if x0 != 'Bx' else 'B'}_meta.json"
+        meta_src = f"{d}/{x0[0]}_meta.json"
         am = json.load(open(meta_src)) if os.path.exists(meta_src) else {}
         meta = {
             "id": f"{prop}-{x}",
